@@ -30,10 +30,11 @@ type VerifC05Part struct {
 	New int  `json:"new"` // number of new entities
 	Upd bool `json:"upd"` // rewrite this thread's own (pre-created) entity in d
 	Mrg bool `json:"mrg"` // rewrite the group's merged-read entity in d
+	Hot bool `json:"hot"` // rewrite the dataset's shared entity h<d> (written by every client)
 }
 
 type VerifC05Op struct {
-	T     string         `json:"t"` // batch | txn | create | rename | delete
+	T     string         `json:"t"` // batch | batchh (through the handle this client got from create) | txn | txnfail | create | rename | delete
 	D     int            `json:"d"`
 	To    int            `json:"to"`
 	Parts []VerifC05Part `json:"parts"`
@@ -48,6 +49,8 @@ type VerifC05Case struct {
 	Threads  [][]VerifC05Op `json:"threads"`
 	Readers  int            `json:"readers"`
 	Attempts int            `json:"attempts"` // forced: maximum number of attempts
+	Watch    []int          `json:"watch"`    // further dataset codes (created during the run) whose feeds are reported
+	Gate     string         `json:"gate"`     // "" | race (hold client 0 at its first lock.wait until client 1 is done) | barrier (both clients meet at their first lock.wait on #dsm)
 }
 
 // one lock event: [tid, op index, kind (0 wait,1 acquired,2 release,3 updateDataset done), lock code]
@@ -60,6 +63,8 @@ type VerifC05RunObs struct {
 	Errs    [][]string     `json:"errs"` // per thread per op: "" or error text
 	Feeds   map[string][]int `json:"feeds"`
 	Snaps   [][3]int       `json:"snaps"` // [dataset code, length, is-prefix-of-final-feed]
+	Times   map[string][]int `json:"times"` // per dataset: rank of the recorded time of each feed entry
+	Looks   [][3]int       `json:"looks"` // [dataset, k of the last feed entry of an entity, k returned by the scoped lookup]
 	Torn    int            `json:"torn"`  // merged reads whose per-dataset parts disagree
 	Reads   int            `json:"reads"`
 	Detail  string         `json:"detail"`
@@ -119,6 +124,9 @@ type vc05Rec struct {
 	cycle   bool
 	// forced schedule: pause thread 0 after its first acquisition until thread 1 is parked
 	forced    bool
+	gate      string
+	gateSeen  [2]bool
+	bothAt    chan struct{}
 	t0Has     chan struct{}
 	t1Parked  chan struct{}
 	t0HasOnce sync.Once
@@ -180,6 +188,26 @@ func (r *vc05Rec) handle(name, arg string) {
 	if park {
 		r.t1Once.Do(func() { close(r.t1Parked) })
 	}
+	if kind == 0 && r.gate == "race" && tid == 0 {
+		first := false
+		r.t0HasOnce.Do(func() { first = true; close(r.t0Has) })
+		if first {
+			<-r.t1Parked // client 1 has finished its operations
+		}
+	}
+	if kind == 0 && r.gate == "barrier" && lk == vc05Dsm && (tid == 0 || tid == 1) {
+		r.mu.Lock()
+		first := !r.gateSeen[tid]
+		r.gateSeen[tid] = true
+		both := r.gateSeen[0] && r.gateSeen[1]
+		r.mu.Unlock()
+		if first {
+			if both {
+				close(r.bothAt)
+			}
+			<-r.bothAt
+		}
+	}
 	if pause {
 		first := false
 		r.t0HasOnce.Do(func() { first = true; close(r.t0Has) })
@@ -190,9 +218,10 @@ func (r *vc05Rec) handle(name, arg string) {
 }
 
 type vc05Env struct {
-	store *Store
-	dsm   *DsManager
-	c     VerifC05Case
+	store   *Store
+	dsm     *DsManager
+	c       VerifC05Case
+	handles []map[int]*Dataset // per client: the dataset objects CreateDataset handed to it
 }
 
 func vc05Ent(id string, k int) *Entity {
@@ -208,6 +237,9 @@ func (env *vc05Env) partEntities(tid, k int, p VerifC05Part, grp int) []*Entity 
 	}
 	if p.Upd {
 		es = append(es, vc05Ent(fmt.Sprintf("ns3:u%d_%d", tid, p.D), k))
+	}
+	if p.Hot {
+		es = append(es, vc05Ent(fmt.Sprintf("ns3:h%d", p.D), k))
 	}
 	if p.Mrg {
 		e := NewEntity(fmt.Sprintf("ns3:m%d", grp), 0)
@@ -227,14 +259,24 @@ func (env *vc05Env) runOp(tid, k int, op VerifC05Op) error {
 			return fmt.Errorf("no dataset %s", vc05Name(p.D))
 		}
 		return ds.StoreEntities(env.partEntities(tid, k, p, op.Grp))
-	case "txn":
+	case "batchh":
+		p := op.Parts[0]
+		ds := env.handles[tid][p.D]
+		if ds == nil {
+			return fmt.Errorf("no handle for %s", vc05Name(p.D))
+		}
+		return ds.StoreEntities(env.partEntities(tid, k, p, op.Grp))
+	case "txn", "txnfail":
 		txn := &Transaction{DatasetEntities: map[string][]*Entity{}}
 		for _, p := range op.Parts {
 			txn.DatasetEntities[vc05Name(p.D)] = env.partEntities(tid, k, p, op.Grp)
 		}
 		return env.store.ExecuteTransaction(txn)
 	case "create":
-		_, err := env.dsm.CreateDataset(vc05Name(op.D), nil)
+		ds, err := env.dsm.CreateDataset(vc05Name(op.D), nil)
+		if ds != nil {
+			env.handles[tid][op.D] = ds
+		}
 		return err
 	case "rename":
 		_, err := env.dsm.UpdateDataset(vc05Name(op.D), &UpdateDatasetConfig{ID: vc05Name(op.To)})
@@ -245,12 +287,18 @@ func (env *vc05Env) runOp(tid, k int, op VerifC05Op) error {
 	return fmt.Errorf("unknown op %s", op.T)
 }
 
-func vc05Markers(ds *Dataset, since int) ([]int, error) {
+type vc05Entry struct {
+	m   int
+	rec uint64
+	id  string
+}
+
+func vc05Entries(ds *Dataset, since int) ([]vc05Entry, error) {
 	ch, err := ds.GetChanges(0, 0, false)
 	if err != nil {
 		return nil, err
 	}
-	out := make([]int, 0, len(ch.Entities))
+	out := make([]vc05Entry, 0, len(ch.Entities))
 	for i, e := range ch.Entities {
 		if i < since {
 			continue
@@ -267,7 +315,19 @@ func vc05Markers(ds *Dataset, since int) ([]int, error) {
 				m = int(f)
 			}
 		}
-		out = append(out, m)
+		out = append(out, vc05Entry{m, e.Recorded, e.ID})
+	}
+	return out, nil
+}
+
+func vc05Markers(ds *Dataset, since int) ([]int, error) {
+	es, err := vc05Entries(ds, since)
+	if err != nil {
+		return nil, err
+	}
+	out := make([]int, len(es))
+	for i, e := range es {
+		out[i] = e.m
 	}
 	return out, nil
 }
@@ -286,6 +346,7 @@ func vc05Setup(c VerifC05Case, dir string) (*vc05Env, func(), error) {
 			return env, cleanup, err
 		}
 		var es []*Entity
+		es = append(es, vc05Ent(fmt.Sprintf("ns3:h%d", d), 0))
 		for t := range c.Threads {
 			es = append(es, vc05Ent(fmt.Sprintf("ns3:u%d_%d", t, d), 0))
 		}
@@ -313,7 +374,11 @@ func vc05Execute(env *vc05Env, threads [][]VerifC05Op, kbase int, forced bool, w
 	const confirm = 1200 * time.Millisecond
 	c := env.c
 	rec := &vc05Rec{curop: make([]int32, len(threads)), holder: map[int]int{}, waiting: map[int]int{},
-		forced: forced, t0Has: make(chan struct{}), t1Parked: make(chan struct{})}
+		forced: forced, gate: c.Gate, bothAt: make(chan struct{}), t0Has: make(chan struct{}), t1Parked: make(chan struct{})}
+	env.handles = make([]map[int]*Dataset, len(threads))
+	for t := range threads {
+		env.handles[t] = map[int]*Dataset{}
+	}
 	// feed offsets after setup
 	offs := map[int]int{}
 	dsl := []int{vc05Core}
@@ -342,7 +407,7 @@ func vc05Execute(env *vc05Env, threads [][]VerifC05Op, kbase int, forced bool, w
 			defer wg.Done()
 			rec.tids.Store(vc05Gid(), t)
 			<-start
-			if forced && t == 1 {
+			if (forced || c.Gate == "race") && t == 1 {
 				<-rec.t0Has
 			}
 			for i, op := range threads[t] {
@@ -351,7 +416,7 @@ func vc05Execute(env *vc05Env, threads [][]VerifC05Op, kbase int, forced bool, w
 					run.Errs[t][i] = err.Error()
 				}
 			}
-			if forced && t == 1 {
+			if (forced || c.Gate == "race") && t == 1 {
 				rec.t1Once.Do(func() { close(rec.t1Parked) })
 			}
 		}(t)
@@ -463,16 +528,62 @@ wait:
 	}
 	run.Outcome = "ok"
 	run.Feeds = map[string][]int{}
+	run.Times = map[string][]int{}
 	final := map[int][]int{}
+	for _, w := range c.Watch {
+		if env.dsm.GetDataset(vc05Name(w)) != nil {
+			dsl = append(dsl, w)
+		}
+	}
 	for _, d := range dsl {
-		ms, err := vc05Markers(env.dsm.GetDataset(vc05Name(d)), offs[d])
+		ds := env.dsm.GetDataset(vc05Name(d))
+		es, err := vc05Entries(ds, offs[d])
 		if err != nil {
 			run.Outcome = "setup-error"
 			run.Detail = err.Error()
 			return
 		}
+		ms := make([]int, len(es))
+		recs := make([]uint64, 0, len(es))
+		lastOf := map[string]int{}
+		var ids []string
+		for i, e := range es {
+			ms[i] = e.m
+			recs = append(recs, e.rec)
+			if _, seen := lastOf[e.id]; !seen {
+				ids = append(ids, e.id)
+			}
+			lastOf[e.id] = e.m
+		}
 		final[d] = ms
 		run.Feeds[strconv.Itoa(d)] = ms
+		// recorded times as dense ranks
+		sorted := append([]uint64(nil), recs...)
+		sort.Slice(sorted, func(i, j int) bool { return sorted[i] < sorted[j] })
+		rank := map[uint64]int{}
+		for _, v := range sorted {
+			if _, ok := rank[v]; !ok {
+				rank[v] = len(rank)
+			}
+		}
+		tr := make([]int, len(recs))
+		for i, v := range recs {
+			tr[i] = rank[v]
+		}
+		run.Times[strconv.Itoa(d)] = tr
+		if d != vc05Core {
+			sort.Strings(ids)
+			for _, id := range ids {
+				got := -1
+				e, err := env.store.GetEntity(id, []string{vc05Name(d)}, true)
+				if err == nil && e != nil {
+					if f, ok := e.Properties["ns3:k"].(float64); ok {
+						got = int(f)
+					}
+				}
+				run.Looks = append(run.Looks, [3]int{d, lastOf[id], got})
+			}
+		}
 	}
 	rmu.Lock()
 	defer rmu.Unlock()
@@ -541,7 +652,7 @@ func VerifC05Run(c VerifC05Case, dir string) (obs VerifC05Obs, cleanup func()) {
 				break
 			}
 		}
-	case "coretxn":
+	case "coretxn", "gated":
 		run := vc05Execute(env, c.Threads, 0, false, 90*time.Second)
 		obs.Runs = []VerifC05RunObs{run}
 		obs.Outcome = run.Outcome
